@@ -160,6 +160,14 @@ def oracle_c01(d):
                 parsing = "up-front parsing" if d.eager else f"lazy parsing, {expansion_note(d, entry['cls'], min(e['seq'] for e in removed_again), entry['w'])}"
                 same = "the same worker's" if all(e["loc"].startswith(entry["w"] + ":") for e in removed_again) else "another worker's"
                 mechanism = f"state produced in this run was removed from {same} pool by a cleanup before a pending dependant started ({parsing})"
+            elif [h for h in holders if h not in requirement["locs"] and not h.startswith(entry["w"] + ":") and not h.startswith(":")
+                  and location_scope_of(h, entry["w"], d) in requirement["pool_scope"]] and not [
+                      u for u in attempts if u["scope"] == entry["scope"]]:
+                # the residue finding seen within one reuse scope: a worker of this test's own scope holds the state without a
+                # result (so it is not listed), nobody of the scope attempted the producer; copies listed from other scopes
+                # (whose results are visible but whose pools may not be used) do not change that
+                mechanism = ("required state present only in own pool(s) of other workers that have no result for the producer in this run; "
+                             "producer never attempted")
             elif listed_but_not_permitted:
                 mechanism = "state is in a listed source whose scope is not enabled in pool_scope"
             elif holders and not attempts:
